@@ -490,6 +490,75 @@ pub fn first_arrival_corpus() -> Vec<String> {
     v
 }
 
+
+/// Deterministic C07 corpus: a scratchpad and a transaction set of ONE owner share a record key.
+/// Scratchpad held, then transactions (paid upload, replication); transactions held, then scratchpad
+/// (paid upload, unpaid update, replication); valid and invalid content.
+pub fn cross_kind_corpus() -> Vec<String> {
+    let pay = format!("{};0.1.2", GOOD.join(","));
+    let hists: Vec<(&str, Vec<String>)> = vec![
+        ("1=S3", vec!["r tx 1 T0.1.v -".into(), format!("c txp 1 T0.2.v {pay}"), "r tx 1 T0.1.i -".into(), "r tx 1 T0.1.v,0.2.v,1.3.v -".into(), "r pad 1 S0.5.v -".into()]),
+        ("-", vec!["r pad 1 S0.3.v -".into(), "r tx 1 T0.1.v,0.2.v -".into(), format!("c txp 1 T0.2.v {pay}"), "r pad 1 S0.5.v -".into(), "r tx 1 T0.4.v -".into()]),
+        ("-", vec![format!("c padp 1 S0.2.v {pay}"), format!("c txp 1 T0.1.v {pay}"), "r tx 1 T0.1.v -".into(), "c pad 1 S0.4.v -".into()]),
+        ("1=T1.2", vec![format!("c padp 1 S0.3.v {pay}"), "c pad 1 S0.4.v -".into(), "r pad 1 S0.5.v -".into(), "r pad 1 S0.5.w -".into(), "r tx 1 T0.3.v -".into()]),
+        ("-", vec!["r tx 1 T0.1.v -".into(), "r pad 1 S0.3.v -".into(), format!("c padp 1 S0.9.v {pay}"), "c pad 1 S0.9.v -".into(), "r tx 1 T0.2.v -".into()]),
+        ("-", vec![format!("c txp 1 T0.1.v {pay}"), format!("c padp 1 S0.1.v {pay}"), "r pad 1 S0.0.v -".into()]),
+        ("4=S2,1=T1", vec!["r tx 4 T1.1.v -".into(), "r pad 1 S0.3.v -".into(), "r tx 1 T1.2.v,0.2.v -".into(), "r pad 4 S1.3.v -".into()]),
+    ];
+    let mut v = vec![];
+    for (store, ds) in hists {
+        v.push(format!("new {store}"));
+        for d in ds {
+            v.push(format!("deliver {d}"));
+            v.push("dump".to_string());
+        }
+    }
+    v
+}
+
+/// Deterministic C04 corpus: replicated transaction vectors with mixed owners (first element foreign /
+/// own / invalid) against prior content of the owners involved. Key 1 = owner 0, key 4 = owner 1, key 7 = owner 2.
+pub fn mixed_vector_corpus() -> Vec<String> {
+    let stores = ["-", "4=T1.2", "1=T3", "1=T3,4=T1.2", "4=T1.2,7=T4", "4=S2", "1=S2,4=T1"];
+    let vectors = [
+        ("1", "T1.3.v,0.2.v"),
+        ("1", "T1.3.i,0.2.v"),
+        ("1", "T1.3.v,0.2.i"),
+        ("1", "T0.2.v,1.3.v"),
+        ("1", "T2.5.v,1.3.v,0.2.v"),
+        ("4", "T1.3.v,0.2.v"),
+        ("4", "T0.2.v,1.3.v"),
+        ("1", "T1.3.v"),
+    ];
+    let mut v = vec![];
+    for st in stores {
+        for (rk, c) in vectors {
+            v.push(format!("case {st} r tx {rk} {c} -"));
+        }
+    }
+    v
+}
+
+/// random replicated mixed-owner vector against random prior content of the three owner keys
+fn mixed_vector_case(rng: &mut Rng) -> String {
+    let mut store: Vec<(u64, String)> = vec![];
+    for id in 0..3u64 {
+        match rng.below(4) {
+            0 => store.push((3 * id + 1, format!("T{}", join(&subset(rng, 1, 4, true), ".")))),
+            1 if rng.chance(1, 3) => store.push((3 * id + 1, format!("S{}", rng.range(0, 5)))),
+            _ => {}
+        }
+    }
+    let rk_owner = rng.below(3);
+    let n = rng.range(1, 4);
+    let mut es = vec![];
+    for i in 0..n {
+        let owner = if i == 0 && rng.chance(2, 3) { (rk_owner + 1 + rng.below(2)) % 3 } else if rng.chance(2, 3) { rk_owner } else { rng.below(3) };
+        es.push(format!("{owner}.{}.{}", rng.range(1, 6), if rng.chance(4, 5) { "v" } else { "i" }));
+    }
+    format!("case {} r tx {} T{} -", store_str(store), 3 * rk_owner + 1, es.join(","))
+}
+
 pub struct Gen {
     queue: VecDeque<String>,
     /// ids of validations begun in the current interleaved phase
@@ -528,6 +597,13 @@ impl Gen {
                 for l in key_mismatch_corpus() {
                     g.queue.push_back(l);
                 }
+                for l in mixed_vector_corpus() {
+                    g.queue.push_back(l);
+                }
+                for _ in 0..(if n >= 2000 { 600 } else { 60 }) {
+                    let l = mixed_vector_case(&mut g.rng);
+                    g.queue.push_back(l);
+                }
                 let thorough = n >= 2000;
                 for l in c04_cases(&mut g.rng, thorough) {
                     g.queue.push_back(l);
@@ -549,6 +625,9 @@ impl Gen {
                 for l in first_arrival_corpus() {
                     g.queue.push_back(l);
                 }
+                for l in cross_kind_corpus() {
+                    g.queue.push_back(l);
+                }
                 g.remaining_histories = n;
             }
         }
@@ -559,6 +638,8 @@ impl Gen {
         let rng = &mut self.rng;
         let fam = *rng.pick(&["pad", "pad", "tx", "reg"]);
         let id = rng.below(3);
+        // one history in four (of the owner-keyed ones) mixes scratchpads and transactions of one owner
+        let cross = fam != "reg" && rng.chance(1, 3);
         let dk = 3 * id + space(fam);
         let store = if rng.chance(2, 3) {
             let d = match fam {
@@ -575,7 +656,8 @@ impl Gen {
         for _ in 0..phases {
             if rng.chance(3, 5) {
                 for _ in 0..rng.range(1, 4) {
-                    let d = mutable_delivery(fam, id, rng);
+                    let f = if cross { *rng.pick(&["pad", "tx"]) } else { fam };
+                    let d = mutable_delivery(f, id, rng);
                     self.queue.push_back(format!("deliver {d}"));
                     self.queue.push_back("dump".into());
                 }
